@@ -289,3 +289,28 @@ Definition law_min_inf (r rr mn : res) : bool :=
                     | None => bool_decide (scm mn !! k = None)
                     end)
           (keys_of [r; rr; mn]).
+
+(* ---- "clones share no storage" on the mechanism: clone, mutate the clone, look at the source again ----
+   wire form of a DRAResource whose capacities carry a backing flag (0 = int64-backed Quantity, 1 = backed
+   by an *inf.Dec, which a struct copy shares); the model has value semantics and ignores the flag *)
+Definition dDresB : dec dres :=
+  let* c := dZ in
+  let* l := dList (let* k := dPos in let* m := dZ in let* _b := dZ in ret (k, m)) in
+  ret (mkD c (list_to_map l : gmap positive Z)).
+
+Definition dres_eqb (a b : dres) : bool := zeqb (d_count a) (d_count b) && bool_decide (d_caps a = d_caps b).
+
+(* before = the source as observed before any mutation; a1 / a2 / a3 = the source observed after
+   clone.Add(o), after clone.Sub(o), after TaskInfo.Clone().DRAResreq[class].Add(o) *)
+Definition law_clone_independent (d before a1 a2 a3 : dres) : bool :=
+  dres_eqb before d && dres_eqb a1 before && dres_eqb a2 before && dres_eqb a3 before.
+
+(* S = r.SubWithoutAssert(x), B = S.Add(x) as computed by Go: back to r in every dimension (r's map not nil) *)
+Definition law_sub_add (r x S B : res) : bool :=
+  match sc r with
+  | None => true
+  | Some _ =>
+    zeqb (cpu B) (cpu r) && zeqb (mem B) (mem r) &&
+    zeqb (cpu S) (cpu r - cpu x) &&
+    forallb (fun k => zeqb (sget B k) (sget r k) && zeqb (sget S k) (sget r k - sget x k)) (keys_of [r; x; S; B])
+  end.
